@@ -267,6 +267,23 @@ CHECKS = {
         technique="TLA+ multi-process model (client, server, wire, decoder) checked by TLC; dumped behaviours replayed through the real client and decoder",
         design="4/C07",
     ),
+    "C08": dict(
+        specs=["Faults.tla", "Settings.tla", "Scan.tla", "XorFile.tla", "Guardrails.tla"],
+        text="Termination and totality of the parsing algorithms are model-checked on their state-machine models (PROPERTY "
+        "Termination of Settings / Scan / XorFile / Guardrails / Extract over all inputs of their small alphabets, run by the "
+        "checks of C02, C15, C09, C17, C01). Faults.tla is a structural fault model over five payload layouts (raw, PE, "
+        "XorEncoded, Guardrails, HTTP message): truncation at region boundaries, structure fields set to 0 / 1 / max / "
+        "just-beyond-EOF, flips, drops, duplications, splices; TLC enumerates the fault sequences and labels those that touch "
+        "no structure as result-preserving. Every single fault and a sample (thorough: all) of the pairs is concretised on real-"
+        "size payloads and run, with unstructured inputs (random bytes, damaged real samples, guardrail tails), through 17 entry "
+        "points on BytesIO and real files under a watchdog: only the documented value or ValueError may come out.",
+        note="Trusted: TLC for the enumeration, the harness concretiser, a wall-clock watchdog as the observation of 'does not hang' "
+        "(termination itself is model-checked on the algorithm models). Only exception types (and unchanged settings for harmless "
+        "faults) are judged.",
+        technique="TLA+ fault model enumerated by TLC + termination properties of the parser models; fault sequences replayed through every entry point under a watchdog",
+        design="4/C08",
+        level="model_checking",
+    ),
 }
 
 NOT_YET = "check not built yet in this round; planned in DESIGN.md section 4"
